@@ -130,6 +130,8 @@ def run(argv):
             verif.util.error("Empty argument")
         if argv[k - 1] in ["-T", "-dpi"] and not argv[k].lstrip("-").isdigit():
             verif.util.error("%s needs a whole number, got '%s'" % (argv[k - 1], argv[k]))
+        if argv[k - 1] == "-f" and (os.path.isdir(argv[k]) or not os.path.isdir(os.path.dirname(argv[k]) or ".")):
+            verif.util.error("Cannot write to '%s'" % argv[k])
         if argv[k - 1] == "-type" and argv[k] not in ["plot", "text", "csv", "map", "maprank", "rank", "impact", "mapimpact"]:
             verif.util.error("Type not understood")
         if argv[k - 1] in ["-xlim", "-ylim", "-clim"] and len(verif.util.parse_numbers(argv[k])) != 2:
